@@ -272,7 +272,7 @@ def run_c07(ctx):
                 "TranscriptProtocolV1 and RandomOracle against SHA3-256 of the specified bytes. Sigma.tla: each protocol as a matrix of group elements over Z_5 / Z_3, all witnesses, "
                 "randomness vectors and challenges (completeness, response and statement binding, special soundness); rows = (protocol, one witness component at 0 / 1 / r-1 or all random or all zero, "
                 "perturbation target in {none, context, challenge, each public input, each response component}) replayed on BLS12-381 with the legacy and the V1 transcript; distinct = distinct rows")
-    ctx.assumptions += ["dlog_eq (private type) and com_lin (secret not constructible from outside the crate) are model-checked but not replayed; com_eq_sig, ps_sig_known, com_ineq and enc_trans are exercised through C08 / C12 / C18",
+    ctx.assumptions += ["dlog_eq (private type) and com_lin (secret not constructible from outside the crate) are model-checked but not replayed; ps_sig_known and com_ineq are exercised through C08 / C12 / C18; the blinding randomness of com_eq_sig is drawn by the library (no public constructor), so the boundary class of its first witness component is not controlled",
                         "soundness and zero-knowledge are cryptographic statements outside TLC: the model shows the equations over small fields, the replay shows the code accepts / rejects on the enumerated classes"]
 
 
